@@ -101,6 +101,18 @@ def handle (op : String) (args : List String) : Option String :=
     let n ← decNat n
     let len ← decNat len
     pure (joinToks ("ok" :: (chunks n (List.replicate len (0 : UInt8))).map fun c => toString c.length))
+  | "validate", [len, beh] => do
+    let len ← decNat len
+    let b ← match beh.splitOn "." with
+      | ["open"] => some PluginBehaviour.openErr
+      | ["recv"] => some PluginBehaviour.recvErr
+      | ["valid"] => some (PluginBehaviour.answer true)
+      | ["invalid"] => some (PluginBehaviour.answer false)
+      | ["send", k] => do pure (PluginBehaviour.sendErr (← decNat k))
+      | _ => none
+    let (res, got) := validate chunkSize (List.replicate len (0 : UInt8)) b
+    let r := match res with | .ok => "ok" | .invalid => "invalid" | .err => "err"
+    pure (joinToks (r :: got.map fun c => toString c.length))
   | "chunksize", [] => pure ("ok " ++ toString chunkSize)
   | _, _ => none
 
